@@ -53,6 +53,9 @@ func setSize(b []byte) []byte {
 func damager(g *rig, b *Beh) func([]byte, Step) [][]byte {
 	chanID, tokID, _, _, _ := uasc.VerifActive(g.recvCh)
 	algo := uasc.VerifInstanceAlgo(g.sendCh, chanID, tokID)
+	if algo == nil {
+		return nil
+	}
 	l := layout{mode: b.Mode, sigLen: algo.SignatureLength(), block: algo.BlockSize()}
 	rnd := vfgo.Rand(int64(b.N)*131 + b.Salt + 17)
 	var wrong *uapolicy.EncryptionAlgorithm
